@@ -265,6 +265,9 @@ class Roles:
                         elif head(fn) == "glob" and fn[1] in self.P.classes and fn[1].startswith(MOD):
                             callee = self.P.find_method(fn[1], "__init__")
                             selfarg = ("param", "self")
+                        elif head(fn) == "attr" and fn[1] == ("param", "self") and f.cls and self.P.find_method(f.cls, fn[2]):
+                            callee = self.P.find_method(f.cls, fn[2])        # self.helper(...)
+                            selfarg = ("param", "self")
                         if callee is None or callee not in self.P.functions:
                             continue
                         cs = self.A.summary(callee)
